@@ -387,7 +387,7 @@ fn run_case(ctx: &Ctx, index: u64, rep: &mut Report) {
                 let l = rng.s(&["PRINT RND(1)", "X = RND(1)", "PRINT RND(0)", "PRINT RND(-1)", "PRINT RND(1) + RND(1)", "10 PRINT RND(1)", "RUN"]).to_string();
                 a.run_line(&l, 20);
             }
-            let seed = if rng.coin() { rng.below(1 << 33) } else { pick_seed(&mut rng, 999) };
+            let seed = if rng.chance(1, 6) { 0 } else if rng.coin() { rng.below(1 << 33) } else { pick_seed(&mut rng, 999) };
             let mut b = Session::new();
             b.check_invariants = false;
             a.call(Op::Randomize(seed));
@@ -422,10 +422,11 @@ fn run_case(ctx: &Ctx, index: u64, rep: &mut Report) {
             let mut lines = vec!["5 DEF FN D(X) = INT(RND(1) * X) + 1".to_string()];
             let mut kinds = vec![];
             for k in 0..n {
-                let kind = rng.below(11);
+                let kind = rng.below(12);
                 kinds.push(kind);
                 let text = match kind {
                     // every RND(positive) written in the program text is a draw, whatever surrounds it
+                    11 => "INPUT E(INT(RND(1) * 3)) : PRINT RND(0)",
                     7 => "IF RND(1) >= 0 THEN INPUT Q",
                     8 => "X = 0 AND RND(1) : PRINT RND(0)",
                     9 => "X = 1 OR RND(1) : PRINT RND(1)",
@@ -456,6 +457,7 @@ fn run_case(ctx: &Ctx, index: u64, rep: &mut Report) {
                         4 => model.latest(),
                         5 => { model.next(); nested = true; model.latest() }
                         7 => { model.next(); continue; }
+                        11 => { model.next(); model.latest() }
                         8 | 10 => { model.next(); model.latest() }
                         9 => { model.next(); model.next() }
                         _ => { model.next(); model.next() }
